@@ -26,6 +26,8 @@ import (
 	"github.com/iDigitalFlame/xmt/com"
 	"github.com/iDigitalFlame/xmt/data"
 	"github.com/iDigitalFlame/xmt/device"
+
+	"verifharness/vh"
 )
 
 // ---------------------------------------------------------------- profiles
@@ -202,6 +204,21 @@ func decodeMore(dec string, in []byte) ([]uint64, string, error) {
 			return nil, "", fmt.Errorf("unknown profile %s", dec)
 		}
 		return decodeHandle(dec[:2], p, in)
+	case dec == "json":
+		// the input is registration data (readDeviceInfo, kind hello); whatever it stored in the
+		// Session, error or not, is rendered by JSON() and by the model from the same leaves
+		c := data.NewChunk(in)
+		_, s, _ := c2.VerifC04ReadDeviceInfo(0, c)
+		b, err := c2.VerifC04SessionJSON(s)
+		if err != nil {
+			return nil, "jsonerr:" + err.Error(), nil
+		}
+		extra := ""
+		if !json.Valid(b) {
+			extra = "json:the JSON view of the Session is not well-formed: " + string(b)
+		}
+		lastTerm = "CJson " + sessTerm(c2.VerifC04JSONLeaves(s)) + " " + vh.Bytes(b)
+		return []uint64{uint64(len(b))}, extra, nil
 	case dec == "recv":
 		// receive(s, l, &p) on the Session of device A; the input is the stream form of p
 		l := c2.VerifC04Listener(serverKeys, &c2.VerifC04Mux{}, nil, nil)
@@ -233,6 +250,42 @@ func decodeMore(dec string, in []byte) ([]uint64, string, error) {
 		return u64s(w.Bytes()), "", nil
 	}
 	return nil, "", fmt.Errorf("unknown decoder %s", dec)
+}
+
+func zs(s string) string { return vh.Bytes([]byte(s)) }
+func zb(b bool) string {
+	if b {
+		return "true"
+	}
+	return "false"
+}
+func zopt(p *string) string {
+	if p == nil {
+		return "None"
+	}
+	return "(Some " + zs(*p) + ")"
+}
+
+// sessTerm prints the leaves as a Coq value of type sess (Model/Decoders.v).
+func sessTerm(v c2.VerifC04Leaves) string {
+	var nets, prox []string
+	for _, d := range v.Net {
+		var ips []string
+		for _, i := range d.IPs {
+			ips = append(ips, zs(i))
+		}
+		nets = append(nets, "Build_netdev "+zs(d.Name)+" "+zs(d.Mac)+" "+vh.List(ips))
+	}
+	for _, p := range v.Proxies {
+		prox = append(prox, "("+zs(p[0])+", "+zs(p[1])+")")
+	}
+	work := "None"
+	if v.Work != nil {
+		work = "(Some (Build_workh " + zs(v.Work[0]) + " " + zs(v.Work[1]) + " " + zs(v.Work[2]) + " " + zs(v.Work[3]) + " " + zs(v.Work[4]) + "))"
+	}
+	return "(Build_sess " + strings.Join([]string{zs(v.ID), zs(v.Hash), zb(v.Channel), zs(v.Full), zs(v.User), zs(v.Host), zs(v.Ver),
+		zs(v.Arch), zs(v.OS), zb(v.Elev), zs(v.Caps), zb(v.Domain), zs(v.PID), zs(v.PPID), vh.List(nets), zs(v.Created), zs(v.Last),
+		zs(v.Via), zs(v.Sleep), zs(v.Jitter), zs(v.Kill), work, zopt(v.CName), zopt(v.Conn), vh.List(prox)}, " ") + ")"
 }
 
 // ---------------------------------------------------------------- parent side: generation
@@ -433,6 +486,38 @@ func generateMore(corpus bool) {
 				x[32+rng.Intn(len(x)-32)] = byte(rng.U64())
 			}
 			runHandle("hr", p, rewrap(p, x), "random")
+		}
+	}
+	// ---- the JSON view of a Session filled from hostile registration data (modelled)
+	{
+		hostile := []string{"", "alice", `a"b`, `back\slash`, "ctl\x01\n\t\r\x1f", "<script>&amp;'", "\xff\xfe invalid utf8 \xc0\x80", "\u2028\u2029 é ü 漢字",
+			strings.Repeat("x", 300), `","admin":true,"x":"`, "\x00", `\u0000`, "\x7f"}
+		for i, h := range hostile {
+			var c data.Chunk
+			machineBytes(&c, devID(3), i%3, i%2+1, h, hostile[(i+3)%len(hostile)], hostile[(i+5)%len(hostile)])
+			settingsBytes(&c)
+			c.WriteUint8(uint8(i % 3))
+			for k := 0; k < i%3; k++ {
+				c.WriteString(hostile[(i+k)%len(hostile)])
+				c.WriteString(hostile[(i+k+7)%len(hostile)])
+				c.WriteBytes(pat(4, 1))
+			}
+			m := payload(&c)
+			run("json", m, "valid")
+			// the interface name of the first device
+			for k := 0; k < len(m); k += len(m)/8 + 1 {
+				run("json", m[:k], "truncated")
+			}
+		}
+		for i := 0; i < 4*nRandom; i++ {
+			var c data.Chunk
+			machineBytes(&c, devID(3), 1, 1, string(rng.Bytes(rng.Intn(12))), string(rng.Bytes(rng.Intn(12))), string(rng.Bytes(rng.Intn(12))))
+			settingsBytes(&c)
+			c.WriteUint8(1)
+			c.WriteString(string(rng.Bytes(rng.Intn(12))))
+			c.WriteString(string(rng.Bytes(rng.Intn(12))))
+			c.WriteBytes(rng.Bytes(3))
+			run("json", payload(&c), "random")
 		}
 	}
 	// ---- receive(): Multi container walk and fragment dispatch over bytes (modelled)
